@@ -158,11 +158,21 @@ pub fn not(vm: &mut Vm) -> Result<VCell, Error> {
 
 pub fn is_list(vm: &mut Vm) -> Result<VCell, Error> {
     pop_argc(vm, 1, Some(1), "list?")?;
-    let mut rest = vm.heap.get(vm.stack.pop()?);
+    // A circular list is not a list: `slow` follows `fast` at half its
+    // speed, and `fast` can only catch up with it if the cdr chain loops
+    let mut fast = vm.stack.pop()?.clone();
+    let mut slow = fast.clone();
     loop {
-        if !rest.is_pair() {
-            return Ok(rest.is_nil().into());
+        for _ in 0..2 {
+            let rest = vm.heap.get(&fast);
+            if !rest.is_pair() {
+                return Ok(rest.is_nil().into());
+            }
+            fast = rest.as_cdr()?;
         }
-        rest = vm.heap.get(&rest.as_cdr()?);
+        slow = vm.heap.get(&slow).as_cdr()?;
+        if fast == slow {
+            return Ok(false.into());
+        }
     }
 }
